@@ -161,4 +161,22 @@ theorem validity_table (a b : List Meaning) :
     refine ⟨(levelsToRep b (nlM a))[i], by simp [levelsToRep, List.getElem?_eq_getElem hi2], ?_⟩
     exact (l2r_structs b (nlM a) i _ (List.getElem?_eq_getElem hi2)).2 (by omega)
 
+/-- `max_visible_level` of `SerializedRepDefs::new` by its meaning: without a list layer there is none; otherwise it
+    is the number of def levels of the layers below the first list (the levels whose entries carry a value slot) -/
+theorem maxVisibleLevel_eq : ∀ (ms : List Meaning),
+    maxVisibleLevel ms =
+      if ms.any Meaning.isList then some (ndM (ms.takeWhile (fun m => !m.isList))) else none
+  | [] => rfl
+  | m :: ms => by
+    unfold maxVisibleLevel
+    by_cases h : m.isList = true
+    · simp [h, ndM]
+    · have h' : m.isList = false := by simpa using h
+      rw [if_neg h, maxVisibleLevel_eq ms]
+      simp only [List.any_cons, h', Bool.false_or, List.takeWhile_cons, Bool.not_false, if_true]
+      by_cases ha : ms.any Meaning.isList = true
+      · simp only [ha, if_true, Option.map_some, ndM_cons]
+        congr 1; omega
+      · simp [ha]
+
 end LanceModel.C27
